@@ -6,6 +6,7 @@ import (
 	"bytes"
 	"fmt"
 	"math/big"
+	"sync"
 
 	"github.com/bytemare/secp256k1"
 	"github.com/bytemare/secp256k1/internal/field"
@@ -24,11 +25,23 @@ type h2cCase struct {
 	NilDst bool   `json:"nil_dst,omitempty"`
 	Layout string `json:"layout"` // exact | spare1 | spare8 | spare64 | interior
 	Class  string `json:"class"`
+	// Reuse: a sequence of calls whose message / DST are written, one after the other, into the SAME two buffers
+	// (same address, same or different length): what a cache keyed on slice identity cannot tell apart.
+	Reuse []h2cPair `json:"reuse,omitempty"`
+	// Conc: calls executed simultaneously, one goroutine each, on buffers they own.
+	Conc []h2cPair `json:"concurrent,omitempty"`
+}
+
+type h2cPair struct {
+	Msg string `json:"msg"`
+	Dst string `json:"dst"`
 }
 
 var (
 	h2cMsgLens = []int{0, 1, 2, 31, 32, 33, 54, 55, 56, 57, 63, 64, 65, 118, 119, 120, 121, 127, 128, 129, 255, 256, 1000}
 	h2cDstLens = []int{1, 2, 15, 16, 17, 31, 32, 33, 49, 63, 64, 65, 127, 128, 200, 253, 254, 255, 256, 257, 258, 300, 511, 512, 1000}
+	// DST lengths at which a length kept in 16 (or 8) bits wraps
+	h2cHugeDstLens = []int{65535, 65536, 65537, 65551, 65791, 65792, 131072, 131088, 196863}
 	h2cLayouts = []string{"exact", "spare1", "spare8", "spare64", "interior"}
 )
 
@@ -61,7 +74,8 @@ func init() {
 		Rule: "cases = (function, message, DST, slice layout): message lengths around the SHA-256 block/padding boundaries (0,1,31-33,54-57,63-65,118-121,127-129,255,256,1000, one 64 KiB), " +
 			"DST lengths on both sides of the 255-byte oversize rule (1,2,15-17,...,253-258,300,511,512,1000), nil vs empty message, nil and empty DST (must panic), DST/message as sub-slices with spare capacity, the RFC suite DSTs, PRNG (msg,DST) pairs. " +
 			"Oracle: an independent transcription of RFC 9380 (expand_message_xmd 5.3.1/5.3.3, hash_to_field, the non-optimised SSWU of 6.6.2, the E.1 rational map, affine addition) in math/big + crypto/sha256, self-validated on the RFC vectors; " +
-			"the result must encode identically, be a valid curve point, and be identical on a second call with the same content in a different slice layout. Branch outcomes (gx1 square or not for each u, sign fix-up direction) are read from the oracle and counted. " +
+			"the result must encode identically, be a valid curve point, and be identical on a second call with the same content in a different slice layout. " +
+			"Also: DSTs of 65535..196863 bytes (lengths that wrap in 16 bits); buffer-reuse sequences (successive messages/DSTs written into the same two buffers, same and different lengths, short and oversize); concurrent batches (8 goroutines hashing simultaneously on buffers they own). Branch outcomes (gx1 square or not for each u, sign fix-up direction) are read from the oracle and counted. " +
 			"non-trivial = every non-panicking case; distinct by (fn, msg, dst).",
 		NewCase:  func() any { return &h2cCase{} },
 		Generate: c08Generate,
@@ -69,7 +83,7 @@ func init() {
 		Require: func(string) map[string]int64 {
 			return map[string]int64{
 				"fn:H2G": 1000, "fn:E2G": 500, "dst:oversize": 100, "dst:len=255": 5, "dst:len=256": 5, "panic:empty-dst": 6,
-				"h2g:sq-sq": 50, "h2g:sq-nsq": 50, "h2g:nsq-sq": 50, "h2g:nsq-nsq": 50, "sswu:flipped": 100, "sswu:not-flipped": 100, "layout:spare8": 50, "layout:interior": 50,
+				"h2g:sq-sq": 50, "h2g:sq-nsq": 50, "h2g:nsq-sq": 50, "h2g:nsq-nsq": 50, "sswu:flipped": 100, "sswu:not-flipped": 100, "layout:spare8": 50, "layout:interior": 50, "dst:huge": 8, "reuse-sequences": 100, "reuse-calls": 300, "concurrent-batches": 4,
 			}
 		},
 	})
@@ -122,6 +136,58 @@ func h2cGenerate(c *mon.Ctx, fns []string, nq, nt int) {
 		}
 	}
 
+	for i, dl := range h2cHugeDstLens {
+		for _, fn := range fns {
+			cs := &h2cCase{Fn: fn, Msg: mon.H(pat(i, 0x19)), Dst: mon.H(pat(dl, byte(0x40+i))), Layout: "exact", Class: "huge-dst"}
+			c.Structured(func() any { return cs })
+		}
+	}
+
+	// buffer reuse
+	rr := c.SharedRng("reuse")
+
+	for i := 0; i < 160; i++ {
+		fn := fns[i%len(fns)]
+		dl := []int{16, 49, 255, 256, 300, 1, 32, 600}[i%8]
+		cs := &h2cCase{Fn: fn, Layout: h2cLayouts[i%len(h2cLayouts)], Class: "reuse"}
+
+		for j := 0; j < 3+i%2; j++ {
+			l := dl
+			if i%5 == 4 && j == 1 {
+				l = dl + 1 // a different length in between
+			}
+
+			m := rr.Bytes(8)
+			if j > 0 && i%3 == 0 {
+				m = mon.UnH(cs.Reuse[0].Msg) // same message, only the DST changes
+			}
+
+			cs.Reuse = append(cs.Reuse, h2cPair{Msg: mon.H(m), Dst: mon.H(rr.Bytes(l))})
+		}
+
+		if i%4 == 0 {
+			cs.Reuse = append(cs.Reuse, cs.Reuse[0]) // and back to the first content
+		}
+
+		c.Structured(func() any { return cs })
+	}
+
+	// concurrent batches
+	for b := 0; b < c.N(8, 400); b++ {
+		cs := &h2cCase{Fn: fns[b%len(fns)], Layout: "exact", Class: "concurrent"}
+
+		for g := 0; g < 8; g++ {
+			dl := []int{20, 300, 255, 256, 700, 16, 300, 49}[g]
+			if b%2 == 1 {
+				dl = []int{300, 300, 400, 400, 300, 256, 257, 1000}[g] // several different oversize DSTs at once
+			}
+
+			cs.Conc = append(cs.Conc, h2cPair{Msg: mon.H(rr.Bytes(5 + g)), Dst: mon.H(rr.Bytes(dl))})
+		}
+
+		c.Structured(func() any { return cs })
+	}
+
 	c.Random(c.N(nq, nt), func(r *gen.Rng) any {
 		ml := h2cMsgLens[r.Intn(len(h2cMsgLens))]
 		if r.Bool() {
@@ -152,8 +218,144 @@ func h2cInputs(cs *h2cCase, fill byte) (msg, dst, msgBack, dstBack []byte) {
 	return
 }
 
+// h2cCallBytes runs fn and returns the bytes that identify the result (compressed point or scalar encoding).
+func h2cCallBytes(fn string, m, d []byte) []byte {
+	switch fn {
+	case "H2G":
+		return secp256k1.HashToGroup(m, d).Encode()
+	case "E2G":
+		return secp256k1.EncodeToGroup(m, d).Encode()
+	default:
+		return secp256k1.HashToScalar(m, d).Encode()
+	}
+}
+
+func h2cWant(fn string, m, d []byte) []byte {
+	switch fn {
+	case "H2G":
+		p, _ := oracle.HashToCurve(m, d)
+		return oracle.EncC(p)
+	case "E2G":
+		p, _ := oracle.EncodeToCurve(m, d)
+		return oracle.EncC(p)
+	default:
+		return oracle.Bytes32(oracle.HashToScalar(m, d))
+	}
+}
+
+// h2cRunHistory handles the buffer-reuse and concurrent kinds for all three hashing functions; it reports whether
+// the case was of one of those kinds.
+func h2cRunHistory(c *mon.Ctx, cs *h2cCase) bool {
+	switch {
+	case len(cs.Reuse) > 0:
+		c.Count("reuse-sequences")
+
+		maxM, maxD := 0, 0
+		for _, p := range cs.Reuse {
+			maxM, maxD = max(maxM, len(p.Msg)/2), max(maxD, len(p.Dst)/2)
+		}
+
+		_, mback := layoutSlice(make([]byte, maxM), cs.Layout, 0x5a)
+		_, dback := layoutSlice(make([]byte, maxD), cs.Layout, 0xa5)
+		pre := 0
+		if cs.Layout == "interior" {
+			pre = 13
+		}
+
+		for i, p := range cs.Reuse {
+			mb, db := mon.UnH(p.Msg), mon.UnH(p.Dst)
+			copy(mback[pre:], mb)
+			copy(dback[pre:], db)
+			m := mback[pre : pre+len(mb) : pre+len(mb)]
+			d := dback[pre : pre+len(db) : pre+len(db)]
+
+			c.Eval(1)
+			c.Count("reuse-calls")
+
+			var got []byte
+
+			if pan, pv := mon.Call(func() { got = h2cCallBytes(cs.Fn, m, d) }); pan {
+				c.Fail(fmt.Sprintf("%s panicked at call %d of a buffer-reuse sequence: %v", cs.Fn, i, pv), "h2c-reuse-panic", nil)
+				return true
+			}
+
+			if want := h2cWant(cs.Fn, mb, db); !bytes.Equal(got, want) {
+				c.Fail(fmt.Sprintf("%s: call %d of a sequence that rewrites the same message/DST buffers in place (msg[%d], dst[%d]) returned %s, RFC 9380 value is %s", cs.Fn, i, len(mb), len(db), mon.H(got), mon.H(want)),
+					"h2c-buffer-reuse:"+cs.Fn, map[string]any{"call": i})
+				return true
+			}
+		}
+
+		c.Seen(cs.Fn, cs.Reuse, cs.Layout)
+
+		return true
+	case len(cs.Conc) > 0:
+		c.Count("concurrent-batches")
+
+		type job struct {
+			m, d, want, got []byte
+			pan             any
+		}
+
+		jobs := make([]*job, len(cs.Conc))
+		for i, p := range cs.Conc {
+			jobs[i] = &job{m: mon.UnH(p.Msg), d: mon.UnH(p.Dst)}
+			jobs[i].want = h2cWant(cs.Fn, jobs[i].m, jobs[i].d)
+		}
+
+		start := make(chan struct{})
+
+		var wg sync.WaitGroup
+
+		for _, j := range jobs {
+			wg.Add(1)
+
+			go func(j *job) {
+				defer wg.Done()
+				defer func() { j.pan = recover() }()
+				<-start
+
+				for rep := 0; rep < 20; rep++ {
+					j.got = h2cCallBytes(cs.Fn, j.m, j.d)
+					if !bytes.Equal(j.got, j.want) {
+						return
+					}
+				}
+			}(j)
+		}
+
+		close(start)
+		wg.Wait()
+
+		for i, j := range jobs {
+			c.Eval(20)
+
+			if j.pan != nil {
+				c.Fail(fmt.Sprintf("%s panicked when %d goroutines hashed simultaneously on their own buffers: %v", cs.Fn, len(jobs), j.pan), "h2c-concurrent-panic", nil)
+				return true
+			}
+
+			if !bytes.Equal(j.got, j.want) {
+				c.Fail(fmt.Sprintf("%s wrong when %d goroutines hash simultaneously on buffers they own (job %d, dst[%d]): %s, RFC 9380 value is %s", cs.Fn, len(jobs), i, len(j.d), mon.H(j.got), mon.H(j.want)), "h2c-concurrent-value:"+cs.Fn, nil)
+				return true
+			}
+		}
+
+		c.Seen(cs.Fn, cs.Conc)
+
+		return true
+	}
+
+	return false
+}
+
 func c08Run(c *mon.Ctx, csAny any) {
 	cs := csAny.(*h2cCase)
+
+	if h2cRunHistory(c, cs) {
+		return
+	}
+
 	msg, dst, _, _ := h2cInputs(cs, 0xa5)
 
 	c.Count("fn:" + cs.Fn)
@@ -190,6 +392,10 @@ func c08Run(c *mon.Ctx, csAny any) {
 	switch {
 	case len(dst) > 255:
 		c.Count("dst:oversize")
+
+		if len(dst) >= 65535 {
+			c.Count("dst:huge")
+		}
 	case len(dst) == 255:
 		c.Count("dst:len=255")
 	}
